@@ -5,7 +5,12 @@ from vlib.core import Case, BUILD
 ID = "C17"
 LEAN_MODULE = "Ctrmml.Properties.C17"
 THEOREMS = ["C17_stepR_erase", "C17_error_ref_is_fetched_command", "C17_missing_call_is_faulty_command", "C17_reference_on_chain",
-            "C17_structural_error_ref", "C17_event_ref_is_command_start", "C17_unknown_command_column"]
+            "C17_structural_error_ref", "C17_event_ref_is_command_start", "C17_unknown_command_column",
+            "C17_parse_error_column", "C17_parse_error_column_bounds", "C17_line_error_position", "C17_file_error_position",
+            "C17_missing_parameter_column", "C17_illegal_duration_column",
+            "C17_converter_error_ref", "C17_writer_error_ref", "C17_converter_error_on_track",
+            "C17_hook_item_is_fetched", "C17_hook_error_event",
+            "C17_what_layout", "C17_what_reads_back", "C17_pipeline_parse_error"]
 LEVEL = "proof"
 STREAM = "diag.what"
 CHUNK = 250
@@ -382,8 +387,8 @@ def typ_of_channel(i):
     return "fm" if i < 6 else "psg" if i < 10 else "pcm" if i < 12 else "other"
 
 
-KINDS = ["unknown-char", "missing-param", "illegal-duration", "unterminated-quote", "unterminated-cond", "loop-unclosed", "loop-stray-end",
-         "stray-break", "missing-call", "missing-ins", "wrong-ins", "note-range", "missing-platform"]
+KINDS = ["unknown-char", "missing-param", "illegal-duration", "unterminated-quote", "unterminated-cond", "unterminated-key", "loop-unclosed",
+         "loop-stray-end", "stray-break", "missing-call", "missing-ins", "wrong-ins", "note-range", "missing-platform"]
 
 
 def inject(rng, song, kind, p):
@@ -417,6 +422,9 @@ def inject(rng, song, kind, p):
         if in_block:
             return None
         insert_before(s, p, Tok("{", "bad"))
+    elif kind == "unterminated-key":
+        # a key signature without its '}' (an input error since fix 524ebc5)
+        insert_before(s, p, Tok(rng.choice(["_{C", "_{+cf", "k{a", "_{", "_{=b "]), "bad"))
     elif kind == "loop-unclosed":
         if t.kind != "le":
             return None
@@ -505,6 +513,11 @@ def fault_cases(rng, song, multi_line, multi_track, family, per_kind=None):
                 lines2, _, f2 = render(s2)
                 if "/" in lines2[f2[0]][f2[1] + 1:] or "}" in lines2[f2[0]][f2[1] + 1:]:
                     continue
+            if kind == "unterminated-key":
+                # a later '}' on the same line (the end of a conditional block) would close the signature
+                lines2, _, f2 = render(s2)
+                if "}" in lines2[f2[0]][f2[1] + 1:]:
+                    continue
             g = song.groups[p[0]]
             where = "in-block" if p[2] is not None else "in-sub" if g.typ == "sub" else "on-channel"
             yield Case(r, base + [kind, where, "depth-%d" % min(p[4], 3)], family)
@@ -578,10 +591,11 @@ CORPUS_FUZZ = [
     ["@1 psg 15 14", "A @1 c"], ["@1 psg 15 14", "G @1 c"], ["A o9 c"], ["A o4 c *20", "*20 o9 c"], ["A %5 c"], ["A c %5 c"], ["A c", "  d %5"],
     ["A c /"], ["A c ]"], ["A c *20", "*20 c ]"], ["A c *99"], ["A 'abc"], ["AB {c/d"], ["AB {c d"], ["AB c {d/e} ? f"], ["A \\=1"], ["A o"],
     ["A c0"], ["A c d", "A o"], ["A v"], ["A [[[[[[[[[[[c]]]]]]]]]]]"], ["A *20", "*20 *21", "*21 *20"], ["A c ]-1"], ["A [c]-1"],
-    ["@1 foo 1", "A c"], ["@1 ;no type", "A c"], ["@1 psg 15", "@2 ;", "A @1 c"], ["@1 fm 1 2 3", "A @1 c"], ["@0 psg 1", "A @0 c"], ["A @0 c"], ["G @0 c"], ["A D1 c", "*0 d"], ["A D1 o9 c"],
+    ["@1 foo 1", "A c"], ["@1 fm 1 2 3", "A @1 c"], ["@0 psg 1", "A @0 c"], ["A @0 c"], ["G @0 c"], ["A D1 c", "*0 d"], ["A D1 o9 c"],
     ["A D30 c", "*30 e", "*31 f"], ["A D30 d"], ["A D30 c", "*30 @77 e"], ["A D30 c", "*30 D0 o9 e"], ["A D30 c", "*30 v5"], ["A *20", "*20 D30 c", "*30 o9 D0 c"],
     ["A *20 c", "*20"], ["A [ *20", "*20"], ["A c L"], ["A L"], ["*20 c ]"], ["Q [ c"], ["A P5 c"], ["A M5 c"], ["A c\t?"],
     ["\tc"], [" A c"], ["A", "\t?"], ["A c", "", " ?"], ["#title x", " ?"], ["A c ; ?"], ["ABC c {d/e} f"], ["AB {c/d/e} f"], ["A }"],
+    ["A {_{C"], ["A _{C"], ["A k{C"], ["A _{C} c"], ["AB {c/_{C}"], ["AB {c/_{C"], ["A {_{Q"], ["A _{C ; }"], ["A c _{+cf", "A d"], ["A {c _{C}"],
     ["A" + " " * 190 + "?"], ["A " + "c " * 120 + "?"], ["A o4 " + "c" * 10, "@300 psg 1 2", "G @300 c", "A @300 d"],
 ]
 
@@ -712,21 +726,35 @@ def shrink(req):
 TECHNIQUE = ("Lean 4 proof (invariants of the reader loop and of the player/validator/converter wrappers that carry the reference) + "
              "fault injection with a known token map: model<->real pipeline correspondence on what() and the spec clauses on the real messages")
 LEVEL_TEXT = ("Machine-checked theorems over Lean models of the reader (input.cpp, mml_input.cpp) and of the reference that Basic_Player carries "
-              "(player.cpp) through Song_Validator and the MDSDRV writer: the reference stamped on a command is the position of its first non-blank "
-              "character; an 'unknown MML command' error is raised at exactly the offending character; a player error carries the reference of the "
-              "command fetched by the failing step (a missing call target: the JUMP itself); at every reachable player state the reference is the "
-              "position of a command on the current track or on a track recorded in a stack frame (a caller), hence so is every structural error of a "
-              "validation run. The column bound for ALL parse_error sites (first character <= column <= line length + 2) and the converter-side "
-              "statements (missing/wrong instrument, note range: the command itself on a channel track, the calling JUMP for a subroutine) are NOT proved "
-              "as theorems: they rest on the fault-injection check (the property's clauses evaluated by Spec/Diag on the real what() text for one fault "
-              "of each of 13 kinds at every command position) together with model<->code agreement on every message. Two defects were found and "
-              "repaired (51fb87b: reference stayed in the subroutine after a return; 1763cac: '%n' events carried a stale or no reference).")
-LEVEL_NOTE = ("Trusted: Lean kernel (propext, Classical.choice, Quot.sound at most), the hand-written models Model/Lexer, Model/Mml (+ Model/MmlFix: the '%' branch "
-              "after fix 1763cac), Model/Player, Model/MdsConv and the wrappers of Model/Refs (agreement with the C++ established by differential testing on "
+              "(player.cpp) through Song_Validator and the MDSDRV writer. Reader: the reference stamped on a command is the position of its first non-blank "
+              "character; an 'unknown MML command' error is raised at exactly the offending character; EVERY parse_error raised inside parse_mml_track (all "
+              "commands, '%', conditional blocks) is on the line being read, at or after the first character of the command of the failing round of the loop "
+              "and at most one past the column get() reaches behind the end of the line (printed: at most two past the end) - proved by a column logic over all "
+              "reader functions (C17_parse_error_column; the former full statement is now the theorem C17_parse_error_column_bounds); the same upper bound and "
+              "the line for every parse_error of read_line / of a whole file (track list, tag key, every track of a multi-track line, blocks left open); the "
+              "exact column of 'missing parameter' (where get_num gave up) and of 'illegal duration' (behind the number). Player/validator: an error carries "
+              "the reference of the command fetched by the failing step (a missing call target: the JUMP itself); at every reachable state the reference is "
+              "the position of a command on the current track or on a caller's. Converter: every InputError out of the loop over the channel tracks carries "
+              "the reference of the command fetched by the failing writer step of one of those tracks (missing instrument / envelope / platform command, "
+              "note range, wrong instrument type: the faulty command; anything thrown inside a JUMP's hook: the calling JUMP) or comes unchanged out of the "
+              "writer of a drum routine; hence it is no position or a command of a track of the song. what(): the text is file:line+1:col+1: msg cut at 199 "
+              "characters, the prefix is whole whenever it fits (file names up to 175 characters with ten-digit numbers), and the judge's reader gives file, "
+              "line and column back. The event handed to event_hook is the fetched one (a final-pass LOOP_BREAK aside) and event_hook only fails for six "
+              "event types, for INS / '%' / pitch envelope / plain NOTE with the error about that very event: so a missing or wrong instrument, an undefined "
+              "platform command, a missing pitch envelope and a note out of range raised by a writer step carry the position of that command. Decided "
+              "per case by the fault-injection oracle only: that conversion actually reaches the faulty command (completeness: 'it is the faulty command "
+              "itself when that command is on a channel track'), the clause 'on a track that calls it' in terms of the generator's token map, and "
+              "agreement of the models with the C++. Three defects were found and repaired (51fb87b: reference stayed in "
+              "the subroutine after a return; 1763cac: '%n' events carried a stale or no reference; 524ebc5: an unterminated key signature let the read "
+              "position run two past the end of the line, so a later diagnostic named a column three past it).")
+LEVEL_NOTE = ("Trusted: Lean kernel (propext, Classical.choice, Quot.sound at most), the hand-written models Model/Lexer, Model/Mml (Model/MmlFix is now a "
+              "re-export), Model/Player, Model/MdsConv and the wrappers of Model/Refs (agreement with the C++ established by differential testing on "
               "stage + what() of the whole pipeline, not proved), Spec/Diag (my reading of the property), the generator's token map. "
-              "C17_full_statement_parse_error_column is kept as a definition and is not proved.")
+              "The converter theorems speak about Model/Refs' wrapper (which decides nothing itself: Proofs/Refs erase lemmas for the player part); "
+              "the lower bound of C17_parse_error_column is the first character of the command of the failing loop round (CmdHead), which for the "
+              "commands that stamp a reference is that reference's column (C17_event_ref_is_command_start).")
 RULE = ("valid songs (FM/PSG/PCM channel tracks, subroutine tracks, loops with breaks, calls, instruments, loop point; single-/multi-line with "
-        "continuation or repeated track list; single-/multi-track lines with conditional blocks) with ONE injected fault of each of 13 kinds at EVERY "
+        "continuation or repeated track list; single-/multi-track lines with conditional blocks) with ONE injected fault of each of 14 kinds at EVERY "
         "command position (hand-written songs and small random songs) or at sampled positions (large songs); the request carries the generator's "
         "token map (line, column, tracks of every command), call edges and the fault position; plus a corpus of probe inputs and a malformed stream "
         "(correspondence only). non-trivial = carries a fault, or is malformed; distinct by request text")
